@@ -246,10 +246,10 @@ func (env *Env) ident(name string) (Val, error) {
 	case "nil":
 		return Val{T: "0", Typ: types.Typ[types.UntypedNil]}, nil
 	case "result":
-		if env.result.T == "" && env.result.Elems == nil {
-			return Val{}, fmt.Errorf("result not available here")
+		// where no return value exists (site clauses, pre-conditions) the name may denote a parameter called result
+		if env.result.T != "" || env.result.Elems != nil {
+			return env.result, nil
 		}
-		return env.result, nil
 	}
 	if strings.HasPrefix(name, "result") {
 		if i, err := strconv.Atoi(name[6:]); err == nil && i < len(env.result.Elems) {
@@ -910,6 +910,14 @@ func (env *Env) call(x *ast.CallExpr) (Val, error) {
 			return Val{}, err
 		}
 		return boolVal(sAnd(sApp(">=", a.T, vc.alloc(env.old)), sApp("<", a.T, vc.alloc(env.heap)))), nil
+	case "chancap":
+		// chancap(c): the capacity the channel c was made with
+		a, err := arg(0)
+		if err != nil {
+			return Val{}, err
+		}
+		vc.declFun("chancap", "(Int) Int")
+		return Val{T: sApp("chancap", a.T), Typ: types.Typ[types.Int]}, nil
 	case "allocated":
 		// allocated(x): the pointer (or the backing array of the slice) x is below the allocation frontier of the current state
 		a, err := arg(0)
